@@ -29,8 +29,9 @@ func Parts(mode string) func() []mc.Part {
 	return func() []mc.Part {
 		var ps []mc.Part
 		for _, x := range variants(mode) {
-			ps = append(ps, mc.ExplorePart(x.v.Name, New(x.v), x.q, x.t, false,
-				"state in which at least two farmers hold stake; distinct by canonical hash of farm+bank stores, header and reference model"))
+			ps = append(ps, mc.ExplorePartC(x.v.Name, New(x.v), x.q, x.t, false,
+				"state in which at least two farmers hold stake; distinct by canonical hash of farm+bank stores, header and reference model",
+				&mc.ConfOpts{Stores: []string{"farm", "coinswap"}, SkipDenoms: map[string]bool{"stake": true}, MaxPaths: 120}))
 		}
 		return ps
 	}
